@@ -256,13 +256,23 @@ class KindEngine:
                 by.setdefault(d[0], []).append(d)
             pick = []
             for k in sorted(by, key=lambda k: pri.get(k, 9)):
-                pick.extend(by[k][: (3 if k in ("E", "P") else 2)])
+                pick.extend(by[k][: (3 if k in ("E", "P") else 4 if k == "T" else 2)])
             lim.append(pick)
         allc = list(itertools.islice(itertools.product(*lim), 4000))
         if len(allc) <= self.max_combos:
             return allc
         # cover every (position, kind) at least once, all other positions at their first option
-        base = [l[0] for l in lim]
+        # (the other positions hold a well-formed operand - a plain value, the plain spelling of a token - so that the callback gets
+        # as far as the position that is varied)
+        def neutral(l):
+            for d in l:
+                if d[0] == "P":
+                    return d
+            for d in l:
+                if d[0] == "T" and len(d) > 2 and d[2] == SAMPLE.get(d[1]):
+                    return d
+            return l[0]
+        base = [neutral(l) for l in lim]
         res = {tuple(base)}
         for i, l in enumerate(lim):
             for d in l:
